@@ -8,7 +8,7 @@ from . import pcommon as pc
 def run(tier):
     ck = C.Check("C06", tier)
     failed = ck.proofs()
-    n_g, n_r = (50, 10) if tier == "quick" else (700, 30)
+    n_g, n_r = (50, 10) if tier == "quick" else (400, 24)
     res = P.run_family(ck, n_g, n_r, p_err=0.0, want_hist=True)
     ties = pc.tie_violations(ck, res, want_kinds=("parse", "baseline"))
     st = {"errors_checked": 0, "grammars": 0, "skipped_unproductive": 0, "eof_errors": 0, "lookahead_log_checks": 0}
